@@ -531,7 +531,7 @@ class World:
                         for k in ks:
                             alt.append((('cut', d.name, kind, k), lambda d=d, kind=kind, k=k: self._cut(d, kind, k)))
             for name, fn in sorted(self.closers.items()):
-                alt.append((('close', name), lambda fn=fn: self._closer(fn)))
+                alt.append((('close', name), lambda fn=fn, name=name: self._closer(fn, name)))
         if not ev:
             if self.loop.has_ready():
                 return []  # the caller lets the loop go quiescent first and asks again
@@ -560,8 +560,9 @@ class World:
         self.loop.tick()
         self.logev(('t', round(self.loop.time(), 6)))
 
-    def _closer(self, fn):
+    def _closer(self, fn, name=None):
         self.faults_used += 1
+        self.logev(('close-called', name))
         fn()
 
     def _cut(self, d, kind, k=0):
